@@ -209,4 +209,69 @@ theorem semi_join_empty_right {A B : Type} (on : A → B → Bool) (l : List A) 
 theorem anti_join_empty_right {A B : Type} (on : A → B → Bool) (l : List A) : antiJoin on l ([] : List B) = l := by
   simp [antiJoin]
 
+/-! ### Join reordering -/
+
+theorem flatMap_append_perm' {A C : Type} (g h : A → List C) (l : List A) :
+    (l.flatMap fun a => g a ++ h a).Perm (l.flatMap g ++ l.flatMap h) := by
+  induction l with
+  | nil => simp
+  | cons a as ih =>
+    simp only [List.flatMap_cons]
+    -- (g a ++ h a) ++ X  ~  (g a ++ G) ++ (h a ++ H)   where X ~ G ++ H
+    have h1 : ((g a ++ h a) ++ (as.flatMap fun a => g a ++ h a)).Perm ((g a ++ h a) ++ (as.flatMap g ++ as.flatMap h)) :=
+      List.Perm.append_left _ ih
+    refine h1.trans ?_
+    -- g a ++ (h a ++ (G ++ H)) ~ g a ++ (G ++ (h a ++ H))
+    rw [List.append_assoc, List.append_assoc]
+    refine List.Perm.append_left _ ?_
+    rw [← List.append_assoc, ← List.append_assoc]
+    exact List.Perm.append_right _ List.perm_append_comm
+
+theorem flatMap_singleton_eq_map {A C : Type} (f : A → C) (l : List A) : (l.flatMap fun b => [f b]) = l.map f := by
+  induction l with
+  | nil => simp
+  | cons b bs ih => simp [List.flatMap_cons, ih]
+
+/-- Swapping the two inputs of a cross product gives the same pairs (as a bag). -/
+theorem cross_comm {A B : Type} (l : List A) (r : List B) :
+    ((cross r l).map fun p => (p.2, p.1)).Perm (cross l r) := by
+  unfold cross
+  induction l with
+  | nil =>
+    simp only [List.flatMap_nil]
+    induction r with
+    | nil => simp
+    | cons b bs ih => simpa [List.flatMap_cons] using ih
+  | cons a as ih =>
+    simp only [List.flatMap_cons]
+    -- left: map swap (r.flatMap fun b => (b,a) :: as.map (b,·))
+    have hl : (List.map (fun p : B × A => (p.2, p.1)) (r.flatMap fun b => (a :: as).map fun x => (b, x)))
+        = r.flatMap (fun b => [(a, b)] ++ as.map fun x => (x, b)) := by
+      rw [List.map_flatMap]
+      congr 1
+      funext b
+      simp [List.map_map, Function.comp_def]
+    rw [hl]
+    refine (flatMap_append_perm' (fun b => [(a, b)]) (fun b => as.map fun x => (x, b)) r).trans ?_
+    have e1 : (r.flatMap fun b => [(a, b)]) = r.map fun b => (a, b) := flatMap_singleton_eq_map (fun b => (a, b)) r
+    rw [e1]
+    refine List.Perm.append_left _ ?_
+    have hr : (List.map (fun p : B × A => (p.2, p.1)) (r.flatMap fun b => as.map fun x => (b, x)))
+        = r.flatMap (fun b => as.map fun x => (x, b)) := by
+      rw [List.map_flatMap]
+      congr 1
+      funext b
+      simp [List.map_map, Function.comp_def]
+    rw [← hr]
+    exact ih
+
+/-- **Inner joins commute** (the law behind join reordering): swapping the inputs and the condition
+gives the same bag of pairs. -/
+theorem inner_join_comm {A B : Type} (on : A → B → Bool) (l : List A) (r : List B) :
+    ((innerJoin (fun b a => on a b) r l).map fun p => (p.2, p.1)).Perm (innerJoin on l r) := by
+  rw [← filter_cross_eq_inner, ← filter_cross_eq_inner]
+  have h := List.Perm.filter (fun p : A × B => on p.1 p.2) (cross_comm l r)
+  rw [List.filter_map] at h
+  exact h
+
 end GlareModel.Props.C02
